@@ -28,7 +28,9 @@ def perm_system(c, p):
     T = c['types']
     d = copy.deepcopy(c)
     d['types'] = [T[p[i] - 1] for i in range(len(T))]
-    d['assign_order'] = list(c.get('assign_order', T))      # the same assignment statements as for the base system
+    # the user's script either repeats the same assignment statements as for the base system, or loops over sys.types (then the
+    # order of the assignments follows the re-ordered type list): alternately, decided by the permutation itself
+    d['assign_order'] = list(c.get('assign_order', T)) if (p[0] + 2 * p[-1]) % 2 == 0 else list(d['types'])
     # pair keys are 'a-b' with a before b IN THE TYPE LIST: re-key
     for name in ('pot', 'clo', 'omega'):
         new = {}
